@@ -181,6 +181,16 @@ func c20Schedule(ep *vnet.Endpoint, evs []Ev, discover bool) {
 						}
 					}
 				}
+				if discover {
+					// the service type of a search response, a valid endpoint, and then no device
+					// information at all (nothing / only a block of a type nobody knows): not a
+					// search response (seeded change C20-m: a tolerant block parser in SearchRes.Unpack
+					// turned these into phantom results)
+					hp := []byte{8, 1, 192, 0, 2, byte(e.IA), 0x0e, 0x57}
+					ep.Inject(frame(0x0202, hp), nil)
+					ep.Inject(frame(0x0202, hp, []byte{4, 0x06, 0, 0}), nil)
+					ep.Inject(frame(0x0202, hp, []byte{6, 0xFE, 0, 1, 2, 3}), nil)
+				}
 			case "truncated":
 				// every truncation of frames of the other service types,
 				// with the header still announcing the whole frame and with a header that tells the truth
